@@ -128,6 +128,8 @@ type bias struct {
 	maxBody    int
 	pLoc       int
 	pair       bool
+	crashy     bool
+	pCorrupt   int
 }
 
 func defaultBias() bias {
@@ -456,6 +458,9 @@ func (g *gen) op(b *bias, scn *Scenario) Op {
 	if g.chance(b.pRestart) {
 		o.Admin = "restart"
 	}
+	if g.chance(b.pCorrupt) {
+		o.Admin, o.AdminArg = "corrupt", g.IntN(100000)
+	}
 	return o
 }
 
@@ -500,6 +505,20 @@ func (g *gen) base(profile string, seed uint64, b *bias) *Scenario {
 			cl.Ops = append(cl.Ops, g.op(b, scn))
 		}
 		scn.Clients = append(scn.Clients, cl)
+	}
+	if b.crashy {
+		n := 1 + g.IntN(2)
+		for i := 0; i < n; i++ {
+			k := pick(g, "write", "write", "write", "sync", "create", "close", "rename")
+			f := DiskFault{OpKind: k, Nth: g.IntN(8), Errno: pick(g, "ENOSPC", "EIO", "CRASH", "CRASH")}
+			f.Arg, f.Permille = g.IntN(1001), true
+			scn.DiskFaults = append(scn.DiskFaults, f)
+		}
+		var c2 Client
+		for k := 0; k < 2*len(scn.Resources); k++ {
+			c2.Ops = append(c2.Ops, Op{Res: k % len(scn.Resources), Hdr: g.selHeaders(&scn.Resources[k%len(scn.Resources)], b), ThinkNs: g.dur(1)})
+		}
+		scn.Clients2 = []Client{c2}
 	}
 	if !b.faultFree {
 		n := g.IntN(b.storeFaults + 1)
@@ -622,6 +641,26 @@ var profiles = map[string]func(b *bias, g *gen){
 		b.pNoCache, b.pMustReval, b.pSWR, b.pVary = 25, 35, 30, 20
 		b.lifetimes = []int64{0, 1, 2, 60}
 		b.faultFree, b.storeFaults = false, 1
+	},
+	"crashy": func(b *bias, g *gen) {
+		// C15 (whole stack): write failures and kills while entries are stored, then a second incarnation reads
+		b.backends = []string{"fs", "fs", "fsenc"}
+		b.clients, b.ops, b.resources = [2]int{1, 2}, [2]int{2, 6}, [2]int{1, 2}
+		b.lifetimes = []int64{300, 3600}
+		b.freshKinds = []int{8, 2, 0, 0}
+		b.pNoCache, b.pNoStore, b.pMustReval, b.pReqCC, b.pVary, b.pErrStatus = 0, 0, 0, 3, 10, 0
+		b.thinkFocus, b.pBigBody = 10, 20
+		b.crashy = true
+	},
+	"tamper": func(b *bias, g *gen) {
+		// C17 (whole stack): at-rest modification of encrypted entries between requests
+		b.backends = []string{"fsenc"}
+		b.clients, b.ops, b.resources = [2]int{1, 1}, [2]int{4, 12}, [2]int{1, 2}
+		b.lifetimes = []int64{300, 3600}
+		b.freshKinds = []int{8, 2, 0, 0}
+		b.pNoCache, b.pNoStore, b.pMustReval, b.pReqCC, b.pVary, b.pErrStatus = 0, 0, 0, 3, 10, 0
+		b.thinkFocus = 10
+		b.pCorrupt = 25
 	},
 	"race": func(b *bias, g *gen) {
 		// C16 (c): pairwise-parallel release under the race detector
